@@ -294,6 +294,8 @@ def interegular_to_wfsa(pattern, charset="core", name=lambda x: x):
                 if j in rejection_states:
                     continue
                 for A in expand_alphabet(a):
+                    if len(A) != 1:
+                        continue  # multi-character arc: excluded (and not counted in K) above
                     m.add_arc(name(i), A, name(j), 1 / K)
 
         return m
